@@ -5,7 +5,7 @@ namespace DFV.C17
 open DFV
 
 section
-variable {α : Type}
+variable [FieldAttrs] {α : Type}
 
 theorem fromXA_no_nvdim (xa : XA α) (h : xa.attrs.nvdim = none) : fromXA xa = .error .key := by
   unfold fromXA checkNvdim
@@ -48,6 +48,7 @@ theorem fromXA_uneven (xa : XA α) (ax : Axis) (hax : ax ∈ geo xa) (hev : even
     simp only [Except.bind, this]
     exact ⟨_, rfl⟩
 
+omit [FieldAttrs] in
 /-- the spacing test fails as soon as one spacing deviates from the mean spacing by more than
 `1e-5·|mean|` -/
 theorem evenB_false_of_dev (v : List Rat) (j : Nat) (hj : j + 1 < v.length)
@@ -193,7 +194,7 @@ theorem ap_eq_centres (m : Mesh) (a : Nat) :
   unfold Mesh.centreAx
   push_cast; ring
 
-theorem exported_axis {α} (f : XFld α) (hf : f.WF) (nm : String) (u : PyArg) (a : Nat) (ha : a < f.mesh.ndim) :
+theorem exported_axis [FieldAttrs] {α} (f : XFld α) (hf : f.WF) (nm : String) (u : PyArg) (a : Nat) (ha : a < f.mesh.ndim) :
     (exported f nm u).axes.getD a default =
       { name := f.mesh.region.dims.getD a "", size := f.mesh.nAt a,
         coord := some { vals := tab (f.mesh.nAt a) fun j => f.mesh.centreAx a (j : Int),
